@@ -15,7 +15,7 @@ restore() {
 trap restore EXIT
 for id in "$@"; do
   echo "=== $id with $(basename $(dirname $patch))/$(basename $patch)"
-  VERIF_TIER=${TIER:-quick} ./check $id --tier ${TIER:-quick} > /tmp/try_$id.log 2>&1; rc=$?
+  VERIF_TIER=${TIER:-quick} timeout 1800 ./check $id --tier ${TIER:-quick} > /tmp/try_$id.log 2>&1; rc=$?
   grep -E "^VIOLATION|^KNOWN-FINDING|MACHINERY|tier=" /tmp/try_$id.log | cut -c1-260 | head -12
   echo "=== $id exit=$rc"
 done
